@@ -193,11 +193,9 @@ func (it *Interp) tryMerge(fr *frame, cb *cblock, c *Term) (next int, ok bool) {
 		it.specSteps = 0
 	}
 	savedDefers := len(fr.defers)
-	var envSave []Value
-	if outer {
-		envSave = make([]Value, len(fr.env))
-		copy(envSave, fr.env)
-	}
+	// registers live at the If (loop-carried ones in particular) must read the same in both arms
+	envSave := make([]Value, len(fr.env))
+	copy(envSave, fr.env)
 	savePrev := fr.prev
 	it.spec++
 	defer func() {
@@ -215,25 +213,12 @@ func (it *Interp) tryMerge(fr *frame, cb *cblock, c *Term) (next int, ok bool) {
 			panic(r)
 		}
 	}()
-	// the join's phi registers may be their own operands (loop-carried): keep their current values
-	var phiSave []Value
-	if j != exitBlock {
-		jb := fr.cf.blocks[j]
-		phiSave = make([]Value, jb.phis)
-		for i := 0; i < jb.phis; i++ {
-			phiSave[i] = fr.env[jb.instrs[i].dst]
-		}
-	}
 	it.specBase = it.objSeq
 	vT := it.specRun(fr, cb.succs[0], cb.index, j)
-	if j != exitBlock {
-		jb := fr.cf.blocks[j]
-		for i := 0; i < jb.phis; i++ {
-			fr.env[jb.instrs[i].dst] = phiSave[i]
-		}
-	}
+	copy(fr.env, envSave)
 	it.specBase = it.objSeq
 	vF := it.specRun(fr, cb.succs[1], cb.index, j)
+	copy(fr.env, envSave)
 	merged := make([]Value, len(vT))
 	for i := range vT {
 		m, good := mergeVals(c, vT[i], vF[i])
@@ -241,6 +226,9 @@ func (it *Interp) tryMerge(fr *frame, cb *cblock, c *Term) (next int, ok bool) {
 			panic(specFail{"unmergeable values"})
 		}
 		merged[i] = m
+	}
+	if debugMerge {
+		fmt.Fprintf(os.Stderr, "  arms: T=%v F=%v cond=%s\n", vT, vF, c)
 	}
 	if j == exitBlock {
 		switch len(merged) {
